@@ -69,6 +69,7 @@ pub fn generate(g: &mut G, _index: u64) -> Scenario {
         1 => apply_cause(g, &mut fam, Cause::HandlerPanic),
         2 => apply_cause(g, &mut fam, Cause::TimeoutFail),
         3 => apply_cause(g, &mut fam, Cause::CancelPoll),
+        4 => apply_cause(g, &mut fam, Cause::RestartErr),
         _ => {}
     }
     // somebody else stops the actor concurrently (so that joins always resolve)
